@@ -802,7 +802,7 @@ class C10(Property):
         return out
 
     def cases(self, rng: random.Random, tier: str, deep: bool) -> Iterator[Dict[str, Any]]:
-        count = 16000 if deep else 2400
+        count = 16000 if deep else 1800
         generated = (self.gen_layout(rng, tier) for _ in range(count))
         yield from self._precomputed(generated)
         yield from self.prepeptide_cases(rng, deep)
